@@ -173,6 +173,52 @@ func genPipeline(rng *rand.Rand, id int, g genCfg) *pipeRun {
 	return pr
 }
 
+// genChain: the reader-gone chain. A producer with far more values than the buffers hold | 1..3 middle stages
+// that are themselves stopped by reader-gone WITHOUT draining their input (a forwarding filter that returns at
+// its first failed Put, or a stage that only produces) | an early-exiting consumer. Every stopped stage has
+// to pass the signal on to its own upstream, or the producer blocks forever on the full channel.
+func genChain(rng *rand.Rand, id int) *pipeRun {
+	mid := 1 + rng.Intn(3)
+	n := mid + 2
+	pr := &pipeRun{ID: id, LineLen: 3300 + rng.Intn(700), Procs: []int{1, 2, 4, 8, 16}[rng.Intn(5)]}
+	for s := 1; s <= n; s++ {
+		pr.Yield = append(pr.Yield, rng.Int63())
+		base := s * 1000
+		var sc []op
+		switch {
+		case s == 1:
+			for i := 0; i < 2*realCap+12+rng.Intn(8); i++ {
+				sc = append(sc, op{K: "putv", V: base + i})
+			}
+		case s == n:
+			for i := 0; i < rng.Intn(3); i++ {
+				sc = append(sc, op{K: "getv"})
+			}
+		case rng.Intn(3) == 0: // produces without reading its input
+			for i := 0; i < realCap+3+rng.Intn(6); i++ {
+				sc = append(sc, op{K: "putv", V: base + i})
+			}
+		default: // forwarding filter: reads a few, writes more than the buffer holds
+			k := 2 + rng.Intn(6)
+			for i := 0; i < realCap+3+rng.Intn(6); i++ {
+				if i < k {
+					sc = append(sc, op{K: "getv"})
+				}
+				sc = append(sc, op{K: "putv", V: base + i})
+			}
+		}
+		if s == n && rng.Intn(4) == 0 {
+			sc = append(sc, op{K: "throw"})
+		} else {
+			sc = append(sc, op{K: "ok"})
+		}
+		pr.Scripts = append(pr.Scripts, sc)
+		pr.Logged = append(pr.Logged, true)
+		pr.Words = append(pr.Words, "")
+	}
+	return pr
+}
+
 func nOps(pr *pipeRun) int {
 	n := 0
 	for _, sc := range pr.Scripts {
